@@ -49,15 +49,21 @@ inline bool unhex(const std::string& h, std::string& out) {
     return true;
 }
 
-// scratch directory /tmp/verif-c18-<pid>/, removed at exit
+// scratch directory /tmp/verif-c18-<pid>/ (or below $VERIF_C18_SCRATCH), removed at exit
 inline const std::string& scratch() {
     static std::string dir = [] {
-        std::string d = "/tmp/verif-c18-" + std::to_string(getpid());
+        // $VERIF_C18_SCRATCH (set by tools/fuzzshard.py to the shard's work directory, so that
+        // crashing fuzz/minimisation children leave nothing under /tmp) or /tmp
+        const char* base = getenv("VERIF_C18_SCRATCH");
+        std::string b = base && *base ? base : "/tmp";
+        mkdir(b.c_str(), 0700);
+        std::string d = b + "/verif-c18-" + std::to_string(getpid());
         mkdir(d.c_str(), 0700);
         mkdir((d + "/dir.bin").c_str(), 0700); // "a directory offered as a book"
+        static std::string keep;
+        keep = d;
         atexit([] {
-            std::string d2 = "/tmp/verif-c18-" + std::to_string(getpid());
-            std::string cmd = "rm -rf '" + d2 + "'";
+            std::string cmd = "rm -rf '" + keep + "'";
             if (system(cmd.c_str())) {}
         });
         return d;
